@@ -148,13 +148,13 @@ def oracle(impl, model, exempt=()):
     return None
 
 
-SEEDS = ("C", "F", "none", "scalar", "row")
+SEEDS = ("C", "F", "none", "scalar", "row", "rows2")  # rows2: two backward passes seeded with two rows of one array (seeds that do not own their memory)
 
 
 def seed_grad(shape, kind):
     g = weights(shape, 3)
     return {"C": lambda: np.array(g, order="C"), "F": lambda: np.array(g, order="F"), "none": lambda: None, "scalar": lambda: 1.5,
-            "row": lambda: np.array(g[(0,) * (len(shape) - 1)]) if len(shape) > 1 else 2.5}[kind]()
+            "row": lambda: np.array(g[(0,) * (len(shape) - 1)]) if len(shape) > 1 else 2.5, "rows2": lambda: None}[kind]()
 
 
 def run_one(init, h, seed, order, first=None, direct=None):
@@ -181,7 +181,19 @@ def run_one(init, h, seed, order, first=None, direct=None):
             r.close()
             return (len(h), ("backward0", first)) + f
     try:
-        if direct is not None:
+        if direct == "rows2":
+            L = r.impl.t[order[0]]
+            if r.model.owner(order[0]) != order[0]:
+                r.close()
+                return None  # (a view's graph is gone after its first backward: only memory owners are back-propagated twice)
+            G = np.stack([weights(L.shape, 3), weights(L.shape, 5)])
+            L.backward(G[0])
+            f = oracle(r.impl, r.model, exempt)
+            if f is not None:
+                r.close()
+                return (len(h), ("backward", tuple(order), "first of two seeded passes")) + f
+            L.backward(G[1])
+        elif direct is not None:
             # the terminal is one of the tensors itself, with a caller-supplied gradient (C / F ordered, broadcast, default)
             L = r.impl.t[order[0]]
             L.backward(seed_grad(L.shape, direct))
